@@ -72,6 +72,7 @@ type interpreter struct {
 	replace map[string]*ssa.Function
 	cutAt   map[string]bool
 	trace   bool
+	race    *raceState // happens-before monitor (scheduler mode, vx.RaceMonitor)
 	onEnter func(fr *frame)
 	onLeave func(fr *frame)
 	monitor *reentryMonitor
@@ -457,6 +458,7 @@ func (i *interpreter) runPath(s seed) (res PathResult) {
 
 	i.schAbort = false
 	i.sch = nil
+	i.race = nil
 	defer func() {
 		res.Schedule = i.scheduleString()
 		i.endSchedule()
